@@ -12,7 +12,7 @@ from concurrent.futures import ThreadPoolExecutor
 import vlib
 
 KINDS = {
-    "C05": ["Rebootstrap", "ResumeOlder", "Unattested", "ApplyMismatch", "ApplyOrder", "ApplyNotDurable", "Panic", "NoConverge"],
+    "C05": ["Rebootstrap", "ResumeOlder", "Unattested", "ApplyMismatch", "ApplyOrder", "ApplyNotDurable", "Panic", "NoConverge", "SnapshotConfStale"],
     "C03": ["AckedLost", "NeverSubmitted", "ContentsVsLog", "Panic", "Rebootstrap"],
 }
 POINTS = ["ready", "send1", "presave", "saved", "applied", "send2", "preadvance", "advanced"]
@@ -29,7 +29,7 @@ def scenarios(ctx):
         k += 1
         sc = dict(n=3, seed=seed + k, ops=6, opsafter=3, drop=0.0, dup=0.0, delay=0.0, crashnode=0, crashcycle=0,
                   crashpoint="", crash2=0, restartpeers="all", snapshotat=0, partition=0, follower=False, dropsnap=0,
-                  stepdown="", crashwhen="")
+                  stepdown="", crashwhen="", initial=0, conf="")
         sc.update(kw)
         out.append(sc)
     # every boundary of the ready cycle x role x a few cycle numbers (RaftHost!CrashPts x Cycle)
@@ -62,6 +62,10 @@ def scenarios(ctx):
         for j in range(1 if quick else 4):
             for p in (["send1", "presave", "saved"] if quick else POINTS):
                 add(stepdown=sd, crashnode=-1, crashwhen="stepdown", crashpoint=p, ops=4, opsafter=3)
+    # the group's membership changes while a follower is away and the others compact their logs: the follower
+    # catches up through a snapshot, snapshots locally, dies and restarts from its own store
+    for j in range(2 if quick else 8):
+        add(n=4 + j % 2, initial=3, conf="lagging", ops=2, opsafter=2)
     add(n=1, ops=4, opsafter=0)
     add(n=3, ops=6, follower=True)
     return out
@@ -116,6 +120,17 @@ def run_family(ctx):
             ctx.cov["binding_selftest"]["switch_%s_%s_gives_counterexample" % (sw, val.strip('"'))] = rr.violated
             if not rr.violated:
                 raise vlib.NoVerdict("vacuity guard failed for %s=%s" % (sw, val))
+        # the host's membership bookkeeping (raftConfState, local snapshots, received snapshots, restart)
+        r = ctx.tlc("RaftConf", ctx.cfg("RaftConf_mc.cfg", {"MaxLog": 3 if quick else 4}), timeout=1800, heap="8g", name="RaftConf")
+        if r.violated:
+            raise vlib.NoVerdict("RaftConf violates %s in the repaired switch position: specification bug" % r.violated)
+        r = ctx.tlc("RaftConf", ctx.cfg("RaftConf_mc.cfg", {"MaxLog": 3, "RestoreOnRestart": "FALSE"}), timeout=900, heap="8g", name="RaftConf-norestore", count=False)
+        if r.violated:
+            raise vlib.NoVerdict("RaftConf violates %s with RestoreOnRestart = FALSE (the shipped start-up, which the model says is harmless)" % r.violated)
+        rr = ctx.tlc("RaftConf", ctx.cfg("RaftConf_mc.cfg", {"MaxLog": 3, "UpdateOnInstall": "FALSE"}), timeout=900, heap="8g", name="RaftConf-noupdate", count=False)
+        ctx.cov["binding_selftest"]["switch_UpdateOnInstall_FALSE_gives_counterexample"] = rr.violated
+        if not rr.violated:
+            raise vlib.NoVerdict("vacuity guard failed for UpdateOnInstall=FALSE")
         scs = scenarios(ctx)
     # ---- scenarios on the real code, in parallel child processes
     results = []
@@ -149,6 +164,10 @@ def run_family(ctx):
         crash = [json.loads(x) for x in all_lines[si[0]:v[0] + 1] if '"ev":"crash"' in x]
         role = {-1: "leader", -2: "follower", 0: "none"}.get(sc["crashnode"], "node")
         sig = "%s@n=%d,crash=%s:%s" % (v[1], sc["n"], role, crash[0]["point"] if crash else "none")
+        if sc.get("conf"):
+            sig = "%s@n=%d,conf=%s:%s" % (v[1], sc["n"], sc["conf"], json.loads(all_lines[v[0]])["ev"])
+        elif sc.get("stepdown"):
+            sig = "%s@n=%d,stepdown=%s,crash=%s:%s" % (v[1], sc["n"], sc["stepdown"], role, crash[0]["point"] if crash else "none")
         by.setdefault(sig, []).append((si[1], v[0]))
     if other:
         ctx.notes.append("failed checks of the sibling property (reported by its own check): %s" % other)
